@@ -11,6 +11,10 @@ def call(mod, pb):
     return mod.solve_simpleloop(pb["h"], pb["w"], pb["grid"], tuple(pb["pivot"]))
 
 
+def ncand(pb):
+    return 2 ** L.n_loop_edges(pb['h'], pb['w'])
+
+
 def encode(pb):
     return [[pb["h"], pb["w"], pb["pivot"][0], pb["pivot"][1]], L.flat(pb["grid"])]
 
@@ -23,7 +27,7 @@ def families(tier, rng):
                 for px in range(w):
                     if th or h * w <= 4 or rng.random() < 0.3:
                         yield {"h": h, "w": w, "grid": g, "pivot": [py, px]}
-    for (h, w) in [(3, 3), (2, 4), (4, 2), (3, 4), (4, 4)]:
+    for (h, w) in [(3, 3), (2, 4), (4, 2), (2, 5)] + ([(3, 4), (4, 3)] if th else []):
         for _ in range(150 if th else 25):
             yield {"h": h, "w": w, "grid": L.random_grid(rng, h, w, [0, 1], 0.8),
                    "pivot": [rng.randrange(h), rng.randrange(w)]}
